@@ -52,7 +52,17 @@ C01World(id, depth, shape) ==
                      \* components takes them for descendants of the root
                      Dn(par, "root-private"),                 \* base+11
                      Secret(base + 11, "s4", 5),             \* base+12
-                     Secret(par, "root.bak", 6) >>           \* base+13
+                     Secret(par, "root.bak", 6),             \* base+13
+                     \* names INSIDE the root that contain the dot-dot token without being it: a parent-segment test that
+                     \* looks for the token instead of comparing whole segments takes them for "..", or stops looking after them
+                     Dn(root, "..data"),                      \* base+14
+                     Ascii(base + 14, "zqzq.txt", 5, 3, "txt"),   \* base+15
+                     Dn(root, "v1..v2"),                      \* base+16
+                     Ascii(base + 16, "zqzq.txt", 5, 4, "txt"),   \* base+17
+                     Dn(root, "..."),                         \* base+18
+                     Ascii(base + 18, "zqzq.txt", 5, 6, "txt"),   \* base+19
+                     Dn(base + 3, "a.."),                     \* base+20  (inside d)
+                     Ascii(base + 20, "zqzq.txt", 5, 7, "txt") >> \* base+21
         \* the name of the secret that sits next to the root (level of the root's parent)
         near == IF depth = 1 THEN "s0" ELSE IF depth = 2 THEN "s1" ELSE "s2"
         link == CASE shape = 0 -> <<>>
@@ -175,7 +185,14 @@ RangeWorld ==
         <<Dn(1, "top")>> \o [i \in 1..Len(RangeLens) |-> Pn(1, RangeName(i), RangeLens[i], 10 + i, "bin", "bin", "")]
                         \o << Pn(1, "zqzq.bin", 3, 1, "bin", "bin", "") >> ]
 
-AllWorlds == C01Worlds \cup RouterWorlds \cup {RangeWorld}
+\* files too long for byte-by-byte bodies (judged by label, lengths and a sample of the body, Static!BigFile): slices longer than
+\* any plausible chunk (8 MiB and more), and a length whose product with a long range list passes 2^31 and 2^32
+BigWorld ==
+    [id |-> 32, root |-> 1, ascii |-> FALSE, nodes |->
+        <<Dn(1, "top"), Pn(1, "big12m.bin", 12582919, 17, "bin", "bin", ""), Pn(1, "big2m.bin", 2200003, 18, "bin", "bin", ""),
+          Pn(1, "zqzq.bin", 3, 1, "bin", "bin", "")>>]
+
+AllWorlds == C01Worlds \cup RouterWorlds \cup {RangeWorld, BigWorld}
 WorldById(id) == CHOOSE W \in AllWorlds : W.id = id
 
 =============================================================================
